@@ -209,6 +209,22 @@ def main(argv=None):
     common.setup_repo_import()
     wd = tlc.workdir("C18")
     ck.model("Cli", "Cli.cfg", workers=2)
+    # decision table of the output format (spec -> code): every case of CliTable.GuessFormat is
+    # replayed into the real guess_output_format
+    import io
+    from cnfgen.formula.cnfio import guess_output_format
+    groups = {g["name"]: g["items"] for g in ck.export("CliExport", "CliExport.cfg")}
+    for j, c in enumerate(sorted(groups["formats"], key=lambda c: (c["req"], c["ext"], c["named"]))):
+        name = "out" + ("." + c["ext"] if c["ext"] else "")
+        target = name if c["named"] else io.StringIO()      # a stream without a name has no extension
+        try:
+            got = guess_output_format(target, None if c["req"] == "none" else c["req"])
+        except ValueError:
+            got = "ValueError"
+        except Exception as e:
+            got = type(e).__name__
+        ck.replayed({"id": "format-%03d" % j, "case": c, "got": got}, got == c["expect"],
+                    "output_format_%s_expected_%s" % (got, c["expect"]))
     vectors = ck.export("CliArgs", "CliArgs.cfg")
     if len(vectors) != 1 or len(vectors[0]) < 1000:
         raise tlc.MachineryError("argument vectors not exported")
